@@ -43,6 +43,10 @@ class C10Spec(seqx.Spec):
             out.append({"t": "W", "key": k, "val": "v1b", "side": self.sides[-1], "how": "session"})
         out.append({"t": "W", "key": self.keys[0], "val": "v1c", "side": self.sides[0], "how": "session"})
         out.append({"t": "RF", "key": self.keys[0], "side": self.sides[0]})
+        # a second key removed fully (it may share its content file with the first) and the content removed by address
+        # before / after: the listing must drop exactly the keys a lookup no longer finds
+        out.append({"t": "RF", "key": self.keys[1], "side": self.sides[-1]})
+        out.append({"t": "RH", "val": "v1", "side": self.sides[0]})
         out.append({"t": "CL", "side": self.sides[-1]})
         for k in self.keys:
             for side in self.sides:
